@@ -479,6 +479,8 @@ def render_all(ir):
             emit('print(("ev", 0, Fiber.new(main).call()));', 0)
         else:
             emit('print(("ev", 0, main()));', 0)
+    # tail probe: every try statement has been left by now, so nothing may intercept this
+    emit('throw "tail-probe";', 0)
     return "\n".join(out) + "\n", modules
 
 
@@ -759,6 +761,7 @@ def model(ir, tape, faults):
         except Ret as rr:
             r = num(rr.v) if rr.v is not None else None
         ev.append([num(0), r])
+        outcome = {"uncaught": "tail-probe"}
     except Thrown as t:
         outcome = {"uncaught": t.needle}
         probes.inc("uncaught")
